@@ -30,7 +30,10 @@ RULE = ("one FSM block per scenario: random generic timed FSM classes (2-4 state
         "restartable or not, both initial states) and edzed.InputExp; 3-14 stimuli placed 1 us before / exactly "
         "at (placements B, T, A) / 1 us after the expiry instants reachable from the chosen durations; shutdown "
         "with 0-3 other blocks sending events to the FSM from their stop(); after-run of 3x the longest "
-        "duration. thorough adds the exhaustive enumeration of Timer configurations x event sequences <= 3 x "
+        "duration; a saved state restored before the initdef (Timer and generic FSM: state timed / untimed / "
+        "unknown, expiry none / past / future, calc_output regular / raising / returning UNDEF during the restore, "
+        "initdef timed / untimed; 12 % of the random scenarios get a random saved state). thorough adds the "
+        "exhaustive enumeration of Timer configurations x event sequences <= 3 x "
         "placements around the expiry. distinct = hash of (lines, trace); non-trivial = at least one timer "
         "fired or was cancelled")
 ASSUMPTIONS = [
@@ -38,6 +41,8 @@ ASSUMPTIONS = [
     "cancelled one (the virtual-time loop runs the real asyncio scheduling code with an integer us clock)",
     "durations are integral microseconds (floats k/1e6) and unit strings from a fixed table; the conversion of "
     "unit strings itself is C19's subject",
+    "the time stamp of a saved state is exact in microseconds (the virtual wall clock of the restore scenarios "
+    "starts at the epoch, so that float seconds carry no rounding error); the block is restored at loop time 0",
     "user callbacks are represented by scripts (conditions: constant / environment flag / state test; entry "
     "action: send one event to the FSM itself)",
 ]
@@ -197,6 +202,19 @@ class Stopper(edzed.SBlock):
 
 # ----------------------------------------------------------------------------- building the FSM
 
+def mk_calc(base, env):
+    """calc_output() of the block under test: while `_restore_state` runs it may fail once (an application-defined
+    calc_output that raises on the restored state) or return UNDEF ("leave the output unchanged")"""
+    def calc_output():
+        mode, env['calc_mode'] = env.get('calc_mode'), None
+        if mode == 'r':
+            raise KeyError('calc_output fault during restore')
+        if mode == 'u':
+            return edzed.UNDEF
+        return base()
+    return calc_output
+
+
 def build_fsm(scn, rec, env):
     probe = ProbeBlk('probe', rec=rec)
     ev = edzed.Event(probe)
@@ -259,7 +277,12 @@ def build_fsm(scn, rec, env):
         kw['exit_' + q] = (lambda q: lambda: rec.add('exit', q))(q)
         kw['on_enter_' + q] = ev
         kw['on_exit_' + q] = ev
+    if scn.get('restore'):
+        kw['persistent'] = True
     fsm = cls('fsm', on_notrans=ev, on_output=ev, **kw)
+    if scn.get('restore'):
+        # on the instance: the class (edzed.Timer itself, with its cond_ methods) stays what it is
+        fsm.calc_output = mk_calc(fsm.calc_output, env)
     env['fsm'] = fsm
     rec.fsm = fsm
     return fsm
@@ -366,7 +389,9 @@ def _run_impl(scn):
     rec = Rec()
     env = {'gate': True, 'fsm': None, 'rng_none_absent': bool(scn.get('none_absent', True))}
     lines, trace, steps = [reset_line(scn)], ['ok'], []
-    world = vtime.World()
+    # a saved state carries a wall-clock time stamp (float seconds): with the wall clock starting at the epoch the
+    # time stamps of the restore scenarios are exact in microseconds, as the loop times are
+    world = vtime.World(wall0=vtime.EPOCH) if scn.get('restore') else vtime.World()
     vtime.install(world)
     edzed.reset_circuit()
     circuit = edzed.get_circuit()
@@ -461,6 +486,23 @@ def _run_impl(scn):
 
     for k in range(len(stoppers)):
         Stopper(f'stopper{k}', action=stopper_action(k))
+    rst = scn.get('restore')
+    if rst:
+        orig_restore = fsm._restore_state
+
+        def logged_restore(istate):
+            rec.add('mark', 'restore-begin')
+            env['calc_mode'] = rst['mode']
+            res = 'ret1'
+            try:
+                orig_restore(istate)
+            except Exception as err:
+                res = 'err:' + kind_of(err)
+                raise
+            finally:
+                env['calc_mode'] = None
+                rec.add('mark', 'restore-end', res, snap())
+        fsm._restore_state = logged_restore
     orig_stop = fsm.stop
 
     def logged_stop():
@@ -550,14 +592,32 @@ def _run_impl(scn):
     async def main(loop):
         rec.loop = loop
         state['wall0'] = world.wall_us - world.loop_base
+        if rst:
+            # the saved state as get_state() produces it: (state, expiration as a wall-clock time stamp, sdata)
+            exp_ts = None if rst['exp'] is None else (state['wall0'] + rst['exp']) / 1e6
+            circuit.set_persistent_data({fsm.key: (rst['q'], exp_ts, {})})
         simtask = asyncio.create_task(circuit.run_forever())
         try:
             await circuit.wait_init()
         except Exception:
             pass
         await vtime.settle(loop)
-        ok = emit_checked('init', 'err:' + failure() if aborted() else 'ret1', take(), snap(),
-                          phase='init')
+        first = take()
+        restored = False
+        if rst:
+            pos = next((i for i, e in enumerate(first) if e[1] == 'mark' and e[2] == 'restore-end'), None)
+            assert pos is not None and first[0][1:3] == ['mark', 'restore-begin'], first[:3]
+            rsn = first[pos][4]
+            emit(f"restore {rst['q']} {'-' if rst['exp'] is None else rst['exp']} - {rst['mode'][0]}", first[pos][3],
+                 first[1:pos], rsn, phase='restore')
+            first = first[pos + 1:]
+            restored = rsn['out'] != enc(edzed.UNDEF)
+        if restored:
+            # initialised from the saved state: init_from_value(initdef) is not called
+            assert not first and not aborted(), first
+            ok = True
+        else:
+            ok = emit_checked('init', 'err:' + failure() if aborted() else 'ret1', first, snap(), phase='init')
         for idx, op in enumerate(scn['ops']):
             if not ok:
                 break
@@ -914,6 +974,8 @@ def gen_random(rng):
     scn['ops'], scn['stop_at'], scn['stoppers'] = gen_ops(rng, scn, fam)
     scn['none_absent'] = rng.random() < 0.7
     scn['want_after_stop'] = rng.random() < 0.75
+    if scn['kind'] != 'iexp' and rng.random() < 0.12:
+        with_restore(rng, scn)
     return scn
 
 
@@ -964,8 +1026,43 @@ def fixed_cases():
                'ops': [['adv', 3 * (D1 + D2)]], 'stop_at': 3 * (D1 + D2) + D1, 'stoppers': []}
 
 
+def restore_cases():
+    """a saved state is restored before the initdef: every combination of (state timed / untimed / unknown,
+    expiration none / in the past / in the future, calc_output regular / raising / UNDEF) x initdef timed / untimed,
+    followed by a clock advance beyond both timers or by an event before the restored expiry"""
+    for ton, init, q, exp, mode in itertools.product([D1, None], ['on', 'off'], ['on', 'off', 'zz'],
+                                                     [None, 0, 1_000_000], ['n', 'r', 'u']):
+        base = {'kind': 'timer', 'ton': ton, 'toff': D2, 'period': None, 'restartable': True, 'init': init,
+                'events': TIMER_SEQ_EVENTS, 'states': ['off', 'on'], 'stoppers': [], 'none_absent': True,
+                'restore': {'q': q, 'exp': exp, 'mode': mode}}
+        yield {**base, 'ops': [['adv', 2_500_000]], 'stop_at': 2_600_000}
+        yield {**base, 'ops': [['ev', D1 // 2, 'A', ['E', 'toggle'], None, '-'], ['adv', 1_000_000]],
+               'stop_at': 1_000_000 + D1 // 3}
+    gen = {'kind': 'gen', 'states': ['a', 'b', 'c'], 'events': ['go', 'back'],
+           'trans': [['go', None, 'b'], ['back', None, 'a'], ['go', 'b', 'c']],
+           'timed': [['b', ['E', 'back'], D1], ['c', ['G', 'a'], D2]], 'tdur': [], 'conds': [], 'enter': [],
+           'none_absent': True, 'stoppers': []}
+    for init, q, exp, mode in itertools.product(['a', 'b'], ['a', 'b', 'c', 'zz'], [None, 0, 500_000], ['n', 'r', 'u']):
+        base = {**gen, 'init': init, 'restore': {'q': q, 'exp': exp, 'mode': mode}}
+        yield {**base, 'ops': [['adv', 1_500_000]], 'stop_at': 1_600_000}
+        yield {**base, 'ops': [['ev', 100_000, 'A', ['E', 'go'], None, '-'], ['adv', 500_000], ['adv', 1_500_000]],
+               'stop_at': 1_600_000}
+
+
+def with_restore(rng, scn):
+    """a random saved state for a random scenario"""
+    states = scn['states'] if scn['kind'] == 'gen' else ['off', 'on']
+    timed = [q for q, _t, _d in scn['timed']] if scn['kind'] == 'gen' else states
+    r = rng.random()
+    q = 'zz' if r < 0.05 else rng.choice(timed) if timed and r < 0.7 else rng.choice(states)
+    exp = rng.choice([None, 0, D1 // 2, D1, D2 + 1, 2_000_000])
+    scn['restore'] = {'q': q, 'exp': exp, 'mode': rng.choice(['n', 'n', 'r', 'r', 'u'])}
+    return scn
+
+
 def scenarios(rng, tier):
     yield from fixed_cases()
+    yield from restore_cases()
     if tier == 'quick':
         grid = list(timer_grid(maxlen2=1, with3=False))
         yield from grid
@@ -980,6 +1077,8 @@ def scenarios(rng, tier):
 
 
 def shrink(scn):
+    if scn.get('restore') and scn['restore']['mode'] == 'n' and scn['restore']['exp'] is None:
+        yield {k: v for k, v in scn.items() if k != 'restore'}
     yield from shrink_ops(scn)
     if scn.get('stoppers'):
         yield from shrink_ops(scn, 'stoppers')
@@ -1042,6 +1141,28 @@ class Ref:
         self.failed = False
         self.fires = []             # (time, tev) delivered
         self.visit = 0
+
+    def restore(self, t, q, exp, mode):
+        """docs/FSM.rst + docs/persistence: the saved state is (state, expiration time of the timer, sdata); a
+        restored FSM continues in the state with the remaining time; a state whose timer ran out during the
+        downtime is not restored; an invalid saved state is refused.  A block that could not be restored is not
+        initialised (its initdef applies) -- and owns no timer."""
+        if q not in self.states:
+            return 'err'
+        if exp is not None:
+            if exp <= t:
+                return 'ret1'
+            if q not in self.timed:
+                return 'err'
+        self.state = q
+        if mode == 'r':
+            return 'err'
+        if mode == 'u':
+            return 'ret1'
+        if exp is not None and not self.stopped:
+            self.deadline = (exp, self.timed[q][0])
+        self.initialized = True
+        return 'ret1'
 
     def duration(self, q, item):
         d = item
@@ -1188,6 +1309,9 @@ def oracle(scn, res):
         expect_res = None
         if line[0] == 'init':
             expect_res = ref.event(0, ['G', ref.init], None, '-')
+        elif line[0] == 'restore':
+            expect_res = ref.restore(st['snap']['now'], line[1], None if line[2] == '-' else int(line[2]),
+                                     {'n': 'n', 'r': 'r', 'u': 'u'}[line[4]])
         elif line[0] == 'gate':
             ref.gate = line[1] == 'b1'
         elif line[0] == 'adv':
